@@ -150,6 +150,7 @@ type seq struct {
 	admTok string
 	root   string
 	trail  []string
+	live   bool // the group is kept live in the server (its status page is polled)
 	nuser  int
 	ntok   int
 	bad    bool
@@ -724,6 +725,20 @@ func (s *seq) step(i int) {
 		w.count("well_formed_updates_not_2xx", 1)
 		w.run.Sample(map[string]any{"well_formed_update_not_2xx": o.Kind, "status": st, "trail_tail": s.trail[max(0, len(s.trail)-3):]})
 	}
+	if old := s.plain[o.User]; ok2xx && o.NewPlain != nil && o.User != "\x00" && old != "" && old != *o.NewPlain &&
+		(cur["user/"+o.User+"/permissions"] == `"admin"` || cur["user/"+o.User+"/permissions"] == `["admin"]`) {
+		// the replaced password of a group administrator no longer authenticates anything
+		pst, _, _, pok := s.send("pres-revoked", "GET", "", vsrv.Basic(o.User, old), nil, "revoked-password")
+		if pok {
+			w.count("revoked_admin_passwords_probed", 1)
+			if s.live {
+				w.count("revoked_admin_passwords_probed_on_a_live_group", 1)
+			}
+			if pst >= 200 && pst < 300 {
+				w.run.Violation("insufficient-credential-accepted:GET:group:revoked-password", fmt.Sprintf("after %s %s%s answered %d, GET %s with the replaced password of %q still answered %d (live group: %v)", o.Method, s.base, o.Path, st, s.base, o.User, pst, s.live), s.replay())
+			}
+		}
+	}
 	if ok2xx && o.NewPlain != nil && o.User != "\x00" {
 		if *o.NewPlain == "" {
 			delete(s.plain, o.User)
@@ -802,7 +817,19 @@ func runSequence(w *world, idx uint64, root string) {
 	s.admTok = fmt.Sprintf("MRKptk%dx%d", w.batch, idx)
 	w.newAdminToken(s.admTok, s.name, false)
 	steps := 5 + r.IntN(26)
+	// every fourth sequence addresses a group that is live in the server's memory (somebody has
+	// its page open): the API then authenticates against the cached description, which has to
+	// follow every rewrite of the file
+	s.live = idx%4 == 3
 	for i := 0; i < steps && !s.bad; i++ {
+		if s.live {
+			// (new inode stamps come from the kernel's coarse clock: rewrites are paced so that
+			// two of them of the same size never carry the same stamp)
+			time.Sleep(25 * time.Millisecond)
+			if st, _, _, err := w.do("GET", "/group/"+s.name+"/.status", nil, nil, "none"); err == nil && st == 200 {
+				w.count("preservation_steps_on_a_live_group", 1)
+			}
+		}
 		s.step(i)
 	}
 	w.count("preservation_sequences", 1)
